@@ -80,9 +80,16 @@ type Rec struct {
 	ColNames []string
 	// Retain receives values handed to callbacks, without copying (C18).
 	Retain func(kind string, s string, b []byte)
+	// MaxEvs, when > 0, stops recording after that many events (very long sessions must not grow the harness).
+	MaxEvs int
 }
 
-func (r *Rec) add(e Ev) { r.Evs = append(r.Evs, e) }
+func (r *Rec) add(e Ev) {
+	if r.MaxEvs > 0 && len(r.Evs) >= r.MaxEvs {
+		return
+	}
+	r.Evs = append(r.Evs, e)
+}
 
 // Strings renders the trace.
 func (r *Rec) Strings() []string {
